@@ -185,7 +185,8 @@ package keeper
 //@   flag noframe
 //@   flag pure=NativeTokenStakerListKey
 //@   before[C18.gasla.relative] KVStorePrefixIterator requires len(arg_prefix) == 0
-//@   before[C18.gasla.view] prefix.NewStore requires arg_prefix == str("NativeToken/stakerList/value/")
+//@   before[C18.gasla.view] prefix.NewStore requires defined(res_NativeTokenStakerListKey_0) && arg_prefix == res_NativeTokenStakerListKey_0
+//@   before[C18.gasla.all] NativeTokenStakerListKey requires arg_assetID == ""
 //@   ensures[C18.gasla.view] defined(res_NewStore_0)
 //@ loop #1
 //@   invariant true
